@@ -7,6 +7,7 @@ ADD = 'src/low/easy/relic_bn_add_low.c'
 
 def register(add):
     register_rel(add)
+    register_mul(add)
     for conf, tier in (('w8', 'quick'),):
         register_conf(add, conf, tier)
 
@@ -47,6 +48,23 @@ def register_conf(add0, CONF, TIER):
     low('dv_copy', DV, 'dig_t *c; const dig_t *a; size_t n;', 'dv_copy(c, a, n)', shapes=[('none', 'VC_L_NONE')])
     low('dv_cmp', DV, 'const dig_t *a, *b; size_t n;', 'dv_cmp(a, b, n)', shapes=[('none', 'VC_L_NONE'), ('ab', 'VC_L_AB')])
     low('dv_zero', DV, 'dig_t *a; size_t n;', 'dv_zero(a, n)', shapes=[('none', 'VC_L_NONE')])
+
+
+def register_mul(add0):
+    """multiplication rows with the digit product abstract (uninterpreted), 8-bit configuration"""
+    MUL = 'src/low/easy/relic_bn_mul_low.c'
+    N = NB['w8']
+
+    def low(f, decls, call, shapes):
+        for sh, mac, fixed in shapes:
+            add0('%s.%s@w8' % (f, sh), ['C01', 'C08'], f, sources=[MUL], headers=['bn_mul.h'], defines=['VC_LSHAPE=' + mac, 'VC_COMBA_MAX=6'] + (['VC_FIXED_DIGBUF'] if fixed else []),
+                 decls=decls, call=call, route='bounded', unwind=N, conf='w8', timeout=600,
+                 bound_note='size <= RLC_BN_SIZE symbolic, loops unwound %d times; digit product uninterpreted' % N,
+                 note='RLC_MUL_DIG abstracted by uninterpreted mulhi/mullo with the range assumption PROD <= (B-1)^2')
+    low('bn_mul1_low', 'dig_t *c; const dig_t *a; dig_t d; size_t n;', 'bn_mul1_low(c, a, d, n)', [('none', 'VC_L_NONE', False), ('ca', 'VC_L_CA', True)])
+    low('bn_mula_low', 'dig_t *c; const dig_t *a; dig_t d; size_t n;', 'bn_mula_low(c, a, d, n)', [('none', 'VC_L_NONE', True)])
+    low('bn_muln_low', 'dig_t *c; const dig_t *a, *b; size_t n;', 'bn_muln_low(c, a, b, n)', [('none', 'VC_L_NONE', True), ('ab', 'VC_L_AB', True)])
+    low('bn_muld_low', 'dig_t *c; const dig_t *a, *b; size_t sa, sb; uint_t l, h;', 'bn_muld_low(c, a, sa, b, sb, l, h)', [('none', 'VC_L_NONE', True)])
 
 
 def register_rel(add):
